@@ -63,6 +63,63 @@ pub fn plan_for(prop: &str, tier: Tier) -> Option<PropPlan> {
                 Plan { shape: Shape::History, groups: G_LAYOUT | G_BACKEND | G_CONSTRAINT, random: Some((hc, ho)), spec: spec("C03", OPS_C01 | OPS_C02, MON_OWN, l) },
             ],
         }),
+        "C05" => Some(PropPlan {
+            rule: "case = C01/C02/C08/C10 operation instances and histories run on the instrumented user-defined backends (guard zones, poison, relocate on every capacity change, quarantine) and on Heap under the instrumented global allocator; monitors: guard zones, quarantined blocks still poisoned, visible slots never poison/dead, backend lifecycle (build once with the element layout, never resized below live length, released once after elements); non-trivial = any operation that changes the sequence or the capacity; distinct = distinct (configuration, pick sequence)",
+            bound: format!("exhaustive one-step for len<={}; proptest {} histories x <= {} ops per configuration", l, hc, ho),
+            plans: vec![
+                Plan { shape: Shape::Step, groups: G_LAYOUT | G_BACKEND, random: None, spec: spec("C05", OPS_C01 | OPS_C02 | OPS_CAP | ops(&[OP_CLONE, OP_CLONE_EMPTY]), MON_MEM, l.min(4)) },
+                Plan { shape: Shape::History, groups: G_LAYOUT | G_BACKEND, random: Some((hc, ho)), spec: spec("C05", OPS_C01 | OPS_C02 | OPS_CAP | ops(&[OP_CLONE, OP_CLONE_EMPTY, OP_BULK_PUSH, OP_DROP_NEW]), MON_MEM, l) },
+            ],
+        }),
+        "C08" => Some(PropPlan {
+            rule: "case = (source state incl. full fixed-capacity vectors, clone | clone_empty | clone_empty_in(every target backend flavour), one follow-up C01 operation on the original or on the clone); oracle: same type/layout/len, payloads equal, ids fresh, each source element cloned exactly once, storage separate, the other vector unchanged by the follow-up; non-trivial = len>=1, or backends differ, or fixed-capacity backend; distinct = distinct (configuration, pick sequence)",
+            bound: format!("exhaustive for len<={} on every Cloneable configuration; proptest {} histories x <= {} ops", l, hc, ho),
+            plans: vec![
+                Plan { shape: Shape::CloneThen, groups: G_LAYOUT | G_BACKEND | G_CONSTRAINT, random: None, spec: spec("C08", OPS_C01, MON_CLONE | MON_MODEL | MON_OWN, l.min(4)) },
+                Plan { shape: Shape::History, groups: G_LAYOUT | G_BACKEND | G_CONSTRAINT, random: Some((hc, ho)), spec: spec("C08", OPS_C01 | ops(&[OP_CLONE, OP_CLONE_EMPTY, OP_DRAIN]), MON_CLONE | MON_MODEL | MON_OWN, l) },
+            ],
+        }),
+        "C09" => Some(PropPlan {
+            rule: "case = (state, cloneable source kind {ElementRef, ElementMut, drained element, pop/remove/swap_remove handle}, chain depth 1..3, 0..2 LazyClone::clone copies, consumption of each lazy {push, insert, splice item, downcast, dropped unconsumed}); oracle: registry clone/drop counters (no clone before consumption, original cloned exactly once per consumption, nothing destroyed), destination/source sequences; non-trivial = >=1 consumption, or depth>=2, or non-reference source; distinct = distinct (configuration, pick sequence)",
+            bound: format!("exhaustive for len<=2 on every Cloneable tracked configuration; proptest {} histories x <= {} ops", hc, ho),
+            plans: vec![
+                Plan { shape: Shape::Step, groups: G_LAYOUT | G_BACKEND | G_CONSTRAINT, random: None, spec: spec("C09", ops(&[OP_LAZY]), MON_CLONE | MON_MODEL | MON_OWN, 2) },
+                Plan { shape: Shape::History, groups: G_LAYOUT | G_BACKEND | G_CONSTRAINT, random: Some((hc, ho)), spec: spec("C09", ops(&[OP_LAZY, OP_PUSH, OP_INSERT, OP_REMOVE, OP_POP, OP_SPLICE]), MON_CLONE | MON_MODEL | MON_OWN, l) },
+            ],
+        }),
+        "C10" => Some(PropPlan {
+            rule: "case = ((len, capacity) state, reserve|reserve_exact|shrink_to_fit|shrink_to with arguments 0..=bound+5 and at the usize/isize overflow boundaries, erased/typed entry point), with_capacity at the same boundaries, 2^k-push amortisation runs, and capacity calls interleaved with C01 operations in proptest histories; non-trivial = the call must change capacity or sits on a no-op/overflow boundary; distinct = distinct (configuration, pick sequence)",
+            bound: format!("exhaustive one-step for len<={} x capacity in len+{{0,1,3}}; amortisation up to 2^{} pushes; proptest {} histories x <= {} ops", l, 2 + if q { 12 } else { 14 }, hc, ho),
+            plans: vec![
+                Plan { shape: Shape::Step, groups: G_LAYOUT | G_BACKEND | G_CONSTRAINT, random: None, spec: spec("C10", OPS_CAP, MON_CAP, l) },
+                Plan { shape: Shape::CapSpecial, groups: G_LAYOUT | G_BACKEND, random: None, spec: spec("C10", OPS_CAP, MON_CAP, if q { 12 } else { 14 }) },
+                Plan { shape: Shape::History, groups: G_LAYOUT | G_BACKEND, random: Some((hc, ho)), spec: spec("C10", OPS_CAP | ops(&[OP_PUSH, OP_INSERT, OP_POP, OP_REMOVE, OP_BULK_PUSH, OP_CLEAR]), MON_CAP, l) },
+            ],
+        }),
+        "C13" => Some(PropPlan {
+            rule: "case = (state, index 0..=len+1, get/at/get_mut/at_mut erased and typed) | (write through one of 8 mutable views then read through one of 8 views) | (AnyValueMut::swap for every ordered pair of {ElementMut, removal handle, AnyValueWrapper, AnyValueRaw, drained element}); oracle: model payloads, value_typeid/size/bytes/address of every handle, exactly the two values exchanged; non-trivial = boundary index, writer/reader pairs, mixed handle kinds; distinct = distinct (configuration, pick sequence)",
+            bound: format!("exhaustive one-step for len<={} on all layouts; proptest {} histories x <= {} ops", l, hc, ho),
+            plans: vec![
+                Plan { shape: Shape::Step, groups: G_LAYOUT | G_BACKEND, random: None, spec: spec("C13", ops(&[OP_GET, OP_MUTATE, OP_SWAP, OP_ITER]), MON_VIEW | MON_MODEL, l) },
+                Plan { shape: Shape::History, groups: G_LAYOUT | G_BACKEND, random: Some((hc, ho)), spec: spec("C13", ops(&[OP_GET, OP_MUTATE, OP_SWAP, OP_ITER, OP_PUSH, OP_REMOVE]), MON_VIEW | MON_MODEL, l) },
+            ],
+        }),
+        "C17" => Some(PropPlan {
+            rule: "case = (state, 1..3 into_raw_parts/from_raw_parts round trips each optionally through a field-wise RawParts::clone, then one C01 operation); oracle: no registry/allocator event across the round trip, parts report len/capacity/layout/typeid/drop/clone/handle of the vector, cloned parts equal, rebuilt vector behaves as the Vec model; non-trivial = len>=1 with spare capacity, or parts cloned, or >=2 round trips; distinct = distinct (configuration, pick sequence)",
+            bound: format!("exhaustive for len<={} on Heap and Empty with every constraint set", l),
+            plans: vec![
+                Plan { shape: Shape::RawThen, groups: G_RAW, random: None, spec: spec("C17", OPS_C01, MON_MODEL | MON_OWN | MON_ALLOC, l.min(4)) },
+            ],
+        }),
+        "C18" => Some(PropPlan {
+            rule: "case = C01/C02/C10 operation instances and histories on heap-backed vectors under the instrumented global allocator, capacity requests at the isize/usize overflow boundaries; oracle: allocator log (valid layouts only, realloc/dealloc present the recorded layout, at most one live allocation per vector of sufficient size and alignment, none while capacity x size == 0, nothing left at the end); non-trivial = any operation on a heap vector that can allocate/reallocate/free or a boundary request; distinct = distinct (configuration, pick sequence)",
+            bound: format!("exhaustive one-step for len<={}; with_capacity/reserve at all overflow boundaries; proptest {} histories x <= {} ops", l, hc, ho),
+            plans: vec![
+                Plan { shape: Shape::Step, groups: G_LAYOUT | G_BACKEND | G_RAW, random: None, spec: spec("C18", OPS_C01 | OPS_CAP | ops(&[OP_CLONE, OP_CLONE_EMPTY, OP_SPLICE]), MON_ALLOC, l.min(4)) },
+                Plan { shape: Shape::CapSpecial, groups: G_LAYOUT | G_BACKEND, random: None, spec: spec("C18", OPS_CAP, MON_ALLOC, 8) },
+                Plan { shape: Shape::History, groups: G_LAYOUT | G_BACKEND, random: Some((hc, ho)), spec: spec("C18", OPS_C01 | OPS_C02 | OPS_CAP | ops(&[OP_CLONE, OP_CLONE_EMPTY, OP_BULK_PUSH, OP_DROP_NEW]), MON_ALLOC, l) },
+            ],
+        }),
         _ => None,
     }
 }
